@@ -22,7 +22,7 @@ EXTENDS Integers, Sequences, TextScan
 VARIABLES vis,          \* visible input (sequence of bytes)
           faulty,       \* the source fails after delivering vis
           kind,         \* "cnf", "wcnf", "gcnf"
-          lit,          \* literal type: "i8" .. "i64", "isize"
+          lit,          \* literal type: "i8" .. "i64", "isize", "c1000"
           ignoreHeader, \* Config::ignore_header
           ps,           \* scanner state S
           pc            \* parser fields <<clauseCount, clauseLimit, limitActive, litLimit, litHard, groupLimit, groupHard, hasHeader>>
@@ -129,7 +129,9 @@ Unexp(S) ==
 \* as a token-function result <<"err", S', error>>
 ErrU(S) == Let(Unexp(S), LAMBDA u : <<"err", u[2], u[1]>>)
 
-MaxDimacs == MaxMagT[lit]
+\* the limit of the literal type is what its trait impl declares: the primitive types declare their maximum, the
+\* harness' own type "c1000" declares 1000
+MaxDimacs == IF lit = "c1000" THEN <<1, 0, 0, 0>> ELSE MaxMagT[lit]
 UsizeMax == MaxMagT["usize"]
 
 VarCount(S) ==
